@@ -12,7 +12,7 @@ from .common import CD, PB, PE, ckey
 
 P = "C11"
 EXPLANATION = (
-    "Static rules D11.1-D11.6 (DESIGN.md section 5, C11): byte-layout abstract interpretation of RequestPacket._build_header, "
+    "Static rules D11.1-D11.7 (DESIGN.md section 5, C11): byte-layout abstract interpretation of RequestPacket._build_header, "
     "build_request and _build_common_packet_format compared field by field with spec/encap.json (24-byte header, field order and "
     "widths, zero status, two-item common packet format, item length fields measuring exactly the bytes that follow them), the "
     "per-command constants of every concrete request class, the rule that every SendUnitData-family _setup_message runs the base "
@@ -301,3 +301,35 @@ def d11_6(ctx):
         extra = [w for w in ws if w not in allowed[attr]]
         grant = [w for w in ws if w in allowed[attr] and w[1].startswith("response.")]
         ctx.check(not extra and grant, ckey(drv.key, f"writers:{attr}"), drv.node, f"self.{attr} is written only by the grant/reset sites", f"self.{attr} has writers {extra or ws} besides the grant ({sorted(allowed[attr])})", writers=ws)
+
+
+@rule(P, "D11.7", "T-PASS", floor=2)
+def d11_7(ctx):
+    """The header values handed in by the driver (session handle, sender context, options, connection id) reach the header
+    unchanged: no build_request implementation rebinds one of these parameters, and every override hands its own parameters
+    on to the next implementation."""
+    base = ctx.model.cls(f"{PB}:RequestPacket")
+    fields = [a.arg for a in base.methods["build_request"].args.args[1:]]
+    classes = [c for c in ctx.model.classes.values() if base in c.mro() and "build_request" in c.methods]
+    for c in classes:
+        fn = c.methods["build_request"]
+        params = [a.arg for a in fn.args.args[1:]]
+        rebinds = [n for n in walk(fn) if isinstance(n, ast.Name) and isinstance(n.ctx, (ast.Store, ast.Del)) and n.id in fields]
+        key = ckey(c.key + ".build_request", "pass-through")
+        if rebinds:
+            st = rebinds[0]
+            while not isinstance(st, ast.stmt):
+                st = getattr(st, "_parent")
+            ctx.violation(key, st, f"`{src(st)[:90]}` rebinds the header value `{rebinds[0].id}` on its way to the header: the {rebinds[0].id} field no longer carries what the driver passed "
+                               f"(a value of another width shifts every later field and makes the length field wrong)")
+            continue
+        if c is base:
+            ctx.ok(key, fn, f"{fields} are used as passed")
+            continue
+        sup = [n for n in walk(fn) if isinstance(n, ast.Call) and isinstance(n.func, ast.Attribute) and n.func.attr == "build_request" and isinstance(n.func.value, ast.Call) and call_name(n.func.value) == "super"]
+        ok = len(sup) == 1 and params[: len(fields)] == fields
+        if ok:
+            passed = dict(zip(fields, sup[0].args))
+            passed.update({k.arg: k.value for k in sup[0].keywords if k.arg})
+            ok = all(f in passed and isinstance(passed[f], ast.Name) and passed[f].id == f for f in fields)
+        ctx.check(ok, key, sup[0] if sup else fn, f"{c.name}.build_request hands {fields} on unchanged", f"{c.name}.build_request does not hand {fields} on to the base implementation as received: {[src(a) for a in (sup[0].args if sup else [])]}")
